@@ -368,7 +368,8 @@ class BlockCode(BlockToken):
 
     @staticmethod
     def start(line):
-        return line.replace('\t', '    ', 1).startswith('    ')
+        # a whitespace-only line is a blank line: it cannot open an indented code block
+        return line.replace('\t', '    ', 1).startswith('    ') and line.strip() != ''
 
     @classmethod
     def read(cls, lines):
